@@ -287,11 +287,14 @@ def removals (devs : List Oci.Device) (L : List LinuxDevice) : List Oci.Device :
   L.foldl (fun ds d =>
     if isMarked d.path then removeFirst Oci.Device.path (stripMarker d.path) ds else ds) devs
 
-/-- Body of the second loop for one unmarked entry: `RemoveDevice(path)`, `AddDevice(ToOCI)`,
-    `AddLinuxResourcesDevice(true, type, &major, &minor, access)` (always appended). -/
+/-- `AddDevice(ToOCI)` and `AddLinuxResourcesDevice(true, type, &major, &minor, access)` (the
+    cgroup rule is always appended). -/
+def addStep (st : State) (d : LinuxDevice) : State :=
+  (addOrReplace Oci.Device.path d.toOCI st.1, st.2 ++ [d.cgroupRule])
+
+/-- Body of the second loop for one unmarked entry: `RemoveDevice(path)`, then `addStep`. -/
 def setStep (st : State) (d : LinuxDevice) : State :=
-  (addOrReplace Oci.Device.path d.toOCI (removeFirst Oci.Device.path d.path st.1),
-   st.2 ++ [d.cgroupRule])
+  addStep (removeFirst Oci.Device.path d.path st.1, st.2) d
 
 /-- Second loop: every unmarked entry in list order. -/
 def sets (st : State) (L : List LinuxDevice) : State :=
@@ -300,12 +303,12 @@ def sets (st : State) (L : List LinuxDevice) : State :=
 /-- Repaired `AdjustDevices`. -/
 def apply (st : State) (L : List LinuxDevice) : State := sets (removals st.1 L, st.2) L
 
-/-- `AdjustDevices` at the pinned commit: one loop; `RemoveDevice(stripped key)` for every
-    entry, then the add for unmarked ones. -/
+/-- `AdjustDevices` before the repair: one loop; `RemoveDevice(stripped key)` for every entry,
+    then the add for unmarked ones. -/
 def applyUnfixed (st : State) (L : List LinuxDevice) : State :=
   L.foldl (fun st d =>
     if isMarked d.path then (removeFirst Oci.Device.path (stripMarker d.path) st.1, st.2)
-    else setStep (removeFirst Oci.Device.path (stripMarker d.path) st.1, st.2) d) st
+    else addStep (removeFirst Oci.Device.path (stripMarker d.path) st.1, st.2) d) st
 
 end Devices
 
@@ -604,11 +607,28 @@ def adjust (ext : Externals) (s : Spec) (a : Adjustment) : Except GenError Spec 
   let s ← adjustMounts ext s a.mounts
   pure (adjustRlimits s a.rlimits)
 
-/-- `Generator.Adjust` at the pinned commit (annotations iterated in the order given). -/
+/-- `Generator.Adjust` before any of the repairs (annotations iterated in the order given). -/
 def adjustUnfixed (ext : Externals) (s : Spec) (a : Adjustment) : Except GenError Spec := do
   let s := adjustAnnotationsUnfixed s a.annotations
   let s := adjustEnvUnfixed s a.env
   let s := adjustArgsUnfixed s a.args
+  let s := adjustHooks s a.hooks
+  let s ← injectCDI ext s a.cdiDevices
+  let s := adjustDevicesUnfixed s a.linuxDevices
+  let s := adjustCgroupsPath s a.cgroupsPath
+  let s := adjustOomScoreAdj s a.oomScoreAdj
+  let s := adjustResources s a.resources
+  let s ← adjustBlockIOClass ext s a.blockioClass
+  let s ← adjustRdtClass ext s a.rdtClass
+  let s ← adjustMountsUnfixed ext s a.mounts
+  pure (adjustRlimits s a.rlimits)
+
+/-- `Generator.Adjust` as it stands in /repo after commits 1f50159 and ad4e689 but before
+    docs/fixes/C13-1.patch: annotations and args repaired, list families not. -/
+def adjustListsUnfixed (ext : Externals) (s : Spec) (a : Adjustment) : Except GenError Spec := do
+  let s := adjustAnnotations s a.annotations
+  let s := adjustEnvUnfixed s a.env
+  let s := adjustArgs s a.args
   let s := adjustHooks s a.hooks
   let s ← injectCDI ext s a.cdiDevices
   let s := adjustDevicesUnfixed s a.linuxDevices
